@@ -129,7 +129,7 @@ EXTRA_TECH = {
 }
 
 
-for _k, _v in {'C01': ' Also (HOM1): homogeneity types -- every array of the interpreted methods is tagged with how it scales (|s|^m * sign/phase(s)^n per input object) under rescaling of homogeneous coordinates, tags propagated by exact transfer functions; Point.coords in the four scale-free models and Point.distance are proved invariant under any non-zero (also negative) rescaling of the stored representative; a known non-trivial tag on a returned array, a transcendental function of a scale-dependent quantity, or a threshold selection on one is a violation.', 'C12': ' Also (HOM1): homogeneity types -- every array of the interpreted methods is tagged with how it scales (|s|^m * sign/phase(s)^n per input object) under rescaling of homogeneous coordinates, tags propagated by exact transfer functions; the returned coordinate / distance / centre / radius / angle arrays of hyperbolic.py, projective.py and complex_projective.py (85 on the current tree, count in the evidence) are proved invariant under independent non-zero (also negative, for CP^1 complex) rescaling of every input row; a returned array with a known non-trivial or mixed tag, a transcendental function / real part of a scale-dependent quantity, a scale-free quantity added to one that grows with the scale, a sum over independently scaled rows outside the one span-only helper, or a threshold selection on a scale-dependent quantity is a violation; unknown tags give no verdict. (NP2): no copy=False reaches np.array (NumPy >= 2 raises when a conversion is needed).', 'C13': ' (AR1): np.arange is never given a non-integer step (vertex counts are exact).', 'C15': ' Also (HOM1): homogeneity types -- every array of the interpreted methods is tagged with how it scales (|s|^m * sign/phase(s)^n per input object) under rescaling of homogeneous coordinates, tags propagated by exact transfer functions; reflection_across / from_reflection / fixed-point rows: no scale-free quantity is added to one that grows with the scale of the stored normal (E1c), no transcendental function of a scale-dependent quantity. (FLIP1): the eigenvector ordering is reversed on every path to the gather.', 'C16': ' Also (HOM1): homogeneity types -- every array of the interpreted methods is tagged with how it scales (|s|^m * sign/phase(s)^n per input object) under rescaling of homogeneous coordinates, tags propagated by exact transfer functions; affine_coords / in_affine_chart / endpoint_affine_coords are proved invariant under real and complex rescaling. (SVD1): rows of the V^H factor of np.linalg.svd are conjugated before use as kernel vectors.', 'C17': ' (STK1): rank-dependent stacking functions are applied only to arrays of explicit shape, never to values whose rank follows the batch axes.', 'C18': ' (SVD1): rows of the V^H factor of np.linalg.svd are conjugated before use as kernel vectors.', 'C20': ' Also (HOM1): homogeneity types -- every array of the interpreted methods is tagged with how it scales (|s|^m * sign/phase(s)^n per input object) under rescaling of homogeneous coordinates, tags propagated by exact transfer functions; spherical_coords, real_affine_coords, projective_to_spherical, circle_parameters, fs_diameter, center_inside, contains / intersects are proved invariant under independent complex rescaling (modulus and phase) of every row of the homogeneous data.', 'C05': ' (SYM1): sym_index orders its two indices or every call site passes them ordered.', 'C09': ' (ACC1): no first-wins `setdefault(k, [x])` accumulator in a per-label loop.', 'C03': ' (TS1): Transformation.apply reads every slot of its copy before writing it and returns that copy, never an object re-built through the class.'}.items():
+for _k, _v in {'C01': ' Also (HOM1): homogeneity types -- every array of the interpreted methods is tagged with how it scales (|s|^m * sign/phase(s)^n per input object) under rescaling of homogeneous coordinates, tags propagated by exact transfer functions; Point.coords in the four scale-free models and Point.distance are proved invariant under any non-zero (also negative) rescaling of the stored representative; a known non-trivial tag on a returned array, a transcendental function of a scale-dependent quantity, or a threshold selection on one is a violation.', 'C12': ' Also (HOM1): homogeneity types -- every array of the interpreted methods is tagged with how it scales (|s|^m * sign/phase(s)^n per input object) under rescaling of homogeneous coordinates, tags propagated by exact transfer functions; the returned coordinate / distance / centre / radius / angle arrays of hyperbolic.py, projective.py and complex_projective.py (72 method rows on the current tree, count in the evidence; rows without a rescalable input are not counted) are proved invariant under independent non-zero (also negative, for CP^1 complex) rescaling of every input row; a returned array with a known non-trivial or mixed tag, a transcendental function / real part of a scale-dependent quantity, a scale-free quantity added to one that grows with the scale, a sum over independently scaled rows outside the one span-only helper, or a threshold selection on a scale-dependent quantity is a violation; unknown tags give no verdict. (NP2): no copy=False reaches np.array (NumPy >= 2 raises when a conversion is needed).', 'C13': ' (AR1): np.arange is never given a non-integer step (vertex counts are exact).', 'C15': ' Also (HOM1): homogeneity types -- every array of the interpreted methods is tagged with how it scales (|s|^m * sign/phase(s)^n per input object) under rescaling of homogeneous coordinates, tags propagated by exact transfer functions; reflection_across / from_reflection / fixed-point rows: no scale-free quantity is added to one that grows with the scale of the stored normal (E1c), no transcendental function of a scale-dependent quantity. (FLIP1): the eigenvector ordering is reversed on every path to the gather.', 'C16': ' Also (HOM1): homogeneity types -- every array of the interpreted methods is tagged with how it scales (|s|^m * sign/phase(s)^n per input object) under rescaling of homogeneous coordinates, tags propagated by exact transfer functions; affine_coords / in_affine_chart / endpoint_affine_coords are proved invariant under real and complex rescaling. (SVD1): rows of the V^H factor of np.linalg.svd are conjugated before use as kernel vectors.', 'C17': ' (STK1): rank-dependent stacking functions are applied only to arrays of explicit shape, never to values whose rank follows the batch axes.', 'C18': ' (SVD1): rows of the V^H factor of np.linalg.svd are conjugated before use as kernel vectors.', 'C20': ' Also (HOM1): homogeneity types -- every array of the interpreted methods is tagged with how it scales (|s|^m * sign/phase(s)^n per input object) under rescaling of homogeneous coordinates, tags propagated by exact transfer functions; spherical_coords, real_affine_coords, projective_to_spherical, circle_parameters, fs_diameter, center_inside, contains / intersects are proved invariant under independent complex rescaling (modulus and phase) of every row of the homogeneous data.', 'C05': ' (SYM1): sym_index orders its two indices or every call site passes them ordered.', 'C09': ' (ACC1): no first-wins `setdefault(k, [x])` accumulator in a per-label loop.', 'C03': ' (TS1): Transformation.apply reads every slot of its copy before writing it and returns that copy, never an object re-built through the class.'}.items():
     EXTRA_TEXT[_k] = EXTRA_TEXT.get(_k, '') + _v
 for _k, _v in {'C01': '; homogeneity type system (scaling tags with exact transfer functions) over the interpreted methods', 'C12': '; homogeneity type system (scaling tags |s|^m * phase^n per input row, exact transfer functions, steady / unsteady masks) over the interpreted object methods; NumPy-API lint', 'C15': '; homogeneity type system over the interpreted reflection / fixed-point methods; path rule on the ordering flip', 'C16': '; homogeneity type system with real and complex scale variables; SVD conjugation lint', 'C20': '; homogeneity type system with complex scale variables (modulus degree and phase charge)', 'C13': '; NumPy-API lint (float-step arange)', 'C17': '; NumPy-API lint (rank-dependent stacking)', 'C18': '; SVD conjugation lint'}.items():
     EXTRA_TECH[_k] = EXTRA_TECH.get(_k, '') + _v
